@@ -133,6 +133,34 @@ def check_naturality(params):
     return out
 
 
+def check_history(params):
+    """Call sequences over boxes that share a name and arity but hold different functions (and
+    diagrams mixing them): every call must depend on the diagram only, not on earlier calls."""
+    from discopy.cartesian import Box, Id
+    # a name nobody else in this process has used: the outcome of the case then depends on its
+    # own call sequence only (needed for replay), whatever the process evaluated before
+    h = "h" + digest(params["seq"])[:8]
+    fns = {"p": build.symbolic_function("p", 1), "q": build.symbolic_function("q", 1),
+           "r": build.symbolic_function("r", 2)}
+    boxes = {"p": Box(h, 1, 1, fns["p"]), "q": Box(h, 1, 1, fns["q"]),
+             "pq": Box(h, 1, 1, fns["p"]) >> Box(h, 1, 1, fns["q"]),
+             "qp": Box(h, 1, 1, fns["q"]) >> Box(h, 1, 1, fns["p"]),
+             "r": Box(h, 1, 2, fns["r"]), "p@q": Box(h, 1, 1, fns["p"]) @ Box(h, 1, 1, fns["q"])}
+    want = {"p": "p0(i)", "q": "q0(i)", "pq": "q0(p0(i))", "qp": "p0(q0(i))", "r": ("r0(i)", "r1(i)"),
+            "p@q": ("p0(i)", "q0(j)")}
+    out = []
+    for t, key in enumerate(params["seq"]):
+        d = boxes[key]
+        args = ("i", "j")[:len(d.dom)]
+        got = d(*args)
+        if got != want[key]:
+            out.append((_sig("history", params), "call %d of the sequence %s: %s(%s) = %r, expected %r "
+                        "(boxes share one name but hold different functions)"
+                        % (t, params["seq"], key, ",".join(args), got, want[key])))
+            break
+    return out
+
+
 def norm(r):
     def t(x):
         return tuple(t(y) for y in x) if isinstance(x, (list, tuple)) else x
@@ -140,7 +168,8 @@ def norm(r):
 
 
 CASES = {k: safe("C19", f) for k, f in {"diagram": check_diagram, "structural": check_structural,
-                                        "naturality": check_naturality}.items()}
+                                        "naturality": check_naturality,
+                                        "history": check_history}.items()}
 
 
 def _worker(shard):
@@ -183,6 +212,11 @@ def run(ctx):
     for f in S:
         for g in S:
             items.append(("naturality", dict(f=list(f), g=list(g))))
+    keys = ["p", "q", "pq", "qp", "r", "p@q"]
+    for n in (1, 2, 3):
+        for seq in itertools.product(keys, repeat=n):
+            items.append(("history", dict(seq=list(seq))))
+    # history cases run first in fresh workers *and* interleaved with everything else
     for p in pmap(_worker, build.shards(items, 96)):
         ctx.merge(p)
     ctx.counters["traces_validated_against_impl"] = ctx.counters.get("transitions", 0)
